@@ -556,6 +556,12 @@ def check_byte_streams(ctx, rnd, maxlen, nrandom, stats, violations):
     for n in range(0, maxlen + 1):
         for tup in itertools.product(UTF8_ALPHABET, repeat=n):
             streams.append(bytes(tup))
+    # well-formed characters at every boundary of the encoding (first / last scalar of each length, around the surrogate gap),
+    # alone, doubled, and with an ASCII letter or an ill-formed byte on either side
+    for c in (0x80, 0x7FF, 0x800, 0xFFF, 0x1000, 0xD7FF, 0xE000, 0xFFFD, 0xFFFF, 0x10000, 0x1F34B, 0x3FFFF, 0x40000, 0xFFFFF, 0x100000, 0x10FFFF, 0xE9, 0x2192):
+        e = chr(c).encode("utf-8")
+        for b in (e, e + e, b"a" + e + b"b", e + b"\xff", b"\x80" + e, e[:-1] + b"a" + e, e + b";" + e):
+            streams.append(b)
     for _ in range(nrandom):
         streams.append(bytes(rnd.choice(UTF8_ALPHABET + [rnd.randrange(0x20, 256)]) for _ in range(rnd.randrange(4, 12))))      # (x01-x03 are the harness's own markers in the captured stderr)
     cases = []
